@@ -283,7 +283,8 @@ def spell(x, how, shared):
 
 
 KEEP_EVENTS = 4000     # events of one evolve_until kept in memory (a runaway implementation must not eat the machine)
-WATCHDOG_S = 20.0      # wall-clock limit of one evolve_until (an implementation spinning without calling anything)
+WATCHDOG_S = 10.0      # wall-clock limit of one evolve_until (an implementation spinning without calling anything)
+_watchdog = [WATCHDOG_S]   # halved after every hit (never below 0.5 s): a tree that hangs must not stall the check for hours
 
 
 def hard_bound(ops):
@@ -324,7 +325,9 @@ def run_real(ops):
             raise Runaway('more than %d callbacks + integrations in one evolve_until' % bound)
 
     def on_alarm(signum, frame):
-        raise Runaway('no return within %g s' % WATCHDOG_S)
+        w = _watchdog[0]
+        _watchdog[0] = max(0.5, w / 2)
+        raise Runaway('no return within %g s' % w)
 
     s = Sys()
     kids = {}
@@ -429,7 +432,7 @@ def run_real(ops):
             old_handler = None
             try:
                 old_handler = signal.signal(signal.SIGALRM, on_alarm)
-                signal.setitimer(signal.ITIMER_REAL, WATCHDOG_S)
+                signal.setitimer(signal.ITIMER_REAL, _watchdog[0])
             except (ValueError, AttributeError, OSError):      # not the main thread / no SIGALRM: the count guard remains
                 old_handler = None
             try:
@@ -559,23 +562,49 @@ def real_line(o):
         rat(fires[-1][4] if fires else o['t0']))
 
 
+ARRAYS = ('0d', '1d', '0ds', '1ds')
+
+
 def model_lines(ops):
+    """The history as the CALLER's program (Lean: `ROp`, Model/SchedulerRef.lean): a time handed over as a caller-owned
+    array is a reference to a cell (`cell k x` = the caller writes x into its array k; `addref` / `evolveref` hand the
+    cell over), and the in-place change the caller makes right after the call (`poison` in run_real: += 0.5, += 1024.5,
+    = -3.5 in turn) is one more `cell` write.  Cells 0 / 1 are the two running-time arrays of a history, fresh arrays
+    get fresh cells.  Other spellings are values."""
     lines = ['C20 reset']
     idx = []
     fuel = FUEL
+    npoison = 0
+    fresh = 2
     for op in ops:
+        how = (op[3] if len(op) > 3 else 'f') if op[0] == 'add' else (op[2] if len(op) > 2 else 'f') if op[0] == 'evolve' else 'f'
+        cell = None
+        if how in ARRAYS:
+            if how == '0ds':
+                cell = 0
+            elif how == '1ds':
+                cell = 1
+            else:
+                cell, fresh = fresh, fresh + 1
+            lines.append('C20 cell %d %s' % (cell, rat(op[1])))
         if op[0] == 'kids':
             lines.append('C20 kids %d %s' % (op[1], ','.join(
                 '%s:%d:%s' % (rat(k[0]), k[1], 'c' if len(k) > 2 and k[2] == 'clock' else 'o') for k in op[2]) or '-'))
         elif op[0] == 'add':
-            lines.append('C20 add %s %d' % (rat(op[1]), op[2]))
+            lines.append('C20 add %s %d' % (rat(op[1]), op[2]) if cell is None else 'C20 addref %d %d' % (cell, op[2]))
         elif op[0] == 'mode':
-            continue            # how the times are spelled is invisible to the model: times are values
+            continue            # callbacks passing the clock object back: times are values
         elif op[0] == 'guard':
             fuel = int(op[1])   # the N-th callback raises  <->  the model runs on fuel N
         else:
             idx.append(len(lines))
-            lines.append('C20 evolve %s %d new' % (rat(op[1]), fuel))
+            lines.append('C20 evolve %s %d new' % (rat(op[1]), fuel) if cell is None else 'C20 evolveref %d %d new' % (cell, fuel))
+        if cell is not None:
+            v = float(op[1])
+            v = v + 0.5 if npoison % 3 == 0 else v + 1024.5 if npoison % 3 == 1 else -3.5
+            npoison += 1
+            lines.append('C20 cell %d %s' % (cell, rat(v)))
+    lines.append('C20 byref')
     lines.append('C20 hist')
     return lines, idx
 
@@ -854,6 +883,12 @@ def run(ctx):
                                  'model': out[eps_line] + ' (eps of Model/Scheduler.lean)'})
     for (style, ops, obs), idx in zip(observations, index):
         ihist = idx.pop()
+        # stored by value (Lean: stored_by_value / Bad.byReference): the caller program replayed through `runG .copy`
+        # gives the model's history; would the by-reference scheduler have run something else on this program?
+        byref = dict(tok.split('=') for tok in out[ihist - 1].split())
+        ctx.count('by_reference_scheduler_would_differ:' + byref.get('differs', '?'))
+        if byref.get('replayG') not in ('true', 'na'):
+            ctx.disagree('C20 byref', {'ops': ops, 'model': out[ihist - 1]})
         agree = True
         for o, i in zip(obs, idx):
             ctx.traces_validated += 1
